@@ -1,12 +1,22 @@
 import Varpulis.Model.Zdd
+import Varpulis.Model.ZddTable
 import Varpulis.Driver.Util
 /-! `vmodel zdd`: replays the C06/C07 operation lines on the tree model and judges table dumps. -/
 namespace Varpulis.Driver.ZddD
-open Varpulis.Zdd Varpulis.Driver
+open Varpulis.Zdd Varpulis.ZddT Varpulis.Driver
+
+/-- replay of the TABLE model (Model/ZddTable.lean) next to the tree model: the arena with its caches and
+one ref per register, or one standalone `ZddS` per register. `none` = replay switched off for the rest of
+the scenario (cache budget exceeded; the association-list caches of the model are quadratic). -/
+inductive TM where
+  | arena (s : Arena) (regs : List (Nat × Ref))
+  | zdd (regs : List (Nat × ZddS))
+  | off
 
 structure St where
   arena : Bool := true
   regs : List (Nat × Z) := []
+  tm : TM := .off
 
 def St.get (s : St) (r : Nat) : Z := (s.regs.lookup r).getD .empty
 def St.set (s : St) (r : Nat) (z : Z) : St := { s with regs := (r, z) :: s.regs.filter (·.1 ≠ r) }
@@ -46,39 +56,13 @@ def setDest (st : List (Nat × Z)) (d : Nat) (z : Z) (impl : String) : List (Nat
 def parseMember (w : String) : Option (List Nat) :=
   if w == "_" then some [] else (w.splitOn ",").mapM String.toNat?
 
-/-! ### C07 judge on a dumped node table -/
-inductive Ref | e | b | n (i : Nat) deriving DecidableEq, Repr
+/-! ### C07 judge on a dumped node table
+`Ref`, `Node`, `twf`, `treeF`, `judgeTable` live in Model/ZddTable.lean: the judge runs exactly the
+functions the theorems (`judge_sound`, Props/C07.lean) speak about; this file only parses and prints. -/
 
 def parseRef (s : String) : Option Ref :=
-  if s == "E" then some .e else if s == "B" then some .b
-  else if s.startsWith "N" then (s.drop 1).toNat?.map .n else none
-
-structure Node where
-  v : Nat
-  lo : Ref
-  hi : Ref
-  deriving DecidableEq
-
-def childOk (t : Array Node) (own : Nat) (v : Nat) : Ref → Bool
-  | .e => true | .b => true
-  | .n i => i < own && (match t[i]? with | some c => v < c.v | none => false)
-
-/-- table well-formedness: children created before parents, zero-suppressed, variables strictly
-increasing along edges, no duplicate triple (hash-consing). -/
-def twf (t : Array Node) : Bool :=
-  (List.range t.size).all fun i =>
-    match t[i]? with
-    | none => false
-    | some nd => nd.hi != .e && childOk t i nd.v nd.lo && childOk t i nd.v nd.hi
-        && (List.range i).all fun j => t[j]? != some nd
-
-def treeOf (t : Array Node) : Nat → Ref → Z
-  | _, .e => .empty
-  | _, .b => .base
-  | 0, .n _ => .empty
-  | fuel + 1, .n i => match t[i]? with
-      | some nd => .node nd.v (treeOf t fuel nd.lo) (treeOf t fuel nd.hi)
-      | none => .empty
+  if s == "E" then some .E else if s == "B" then some .B
+  else if s.startsWith "N" then (s.drop 1).toNat?.map .N else none
 
 def parseTable (s : String) : Option (Array Node) :=
   if s.isEmpty then some #[] else
@@ -102,24 +86,138 @@ def judgeDump (st : St) (impl : String) : String :=
   | some ts, some rs =>
     match parseTable ts, parseRegs rs with
     | some t, some regs =>
-      if !twf t then "JUDGE C07 table not well-formed (duplicate, unreduced or unordered node)"
-      else
-        let bad := regs.filter fun (r, x) => treeOf t (t.size + 1) x != st.get r
-        if !bad.isEmpty then s!"DIFF register {bad.map (·.1)} denotes a different tree than the model"
-        else
-          -- canonicity: equal families ⇔ equal handles, over all register pairs
-          let viol := regs.any fun (r1, x1) => regs.any fun (r2, x2) =>
-            (sets (st.get r1) == sets (st.get r2)) != (x1 == x2)
-          if viol then "JUDGE C07 two handles with the same family differ (or conversely)" else "ok"
+      match judgeTable t regs st.get with
+      | .ok => "ok"
+      | .notWF => "JUDGE C07 table not well-formed (duplicate, unreduced or unordered node)"
+      | .dangling rs => s!"JUDGE C07 handle of register {rs} dangles (node id beyond the table)"
+      | .wrongTree rs => s!"DIFF register {rs} denotes a different tree than the model"
+      | .notCanonical => "JUDGE C07 two handles with the same family differ (or conversely)"
     | _, _ => "BADLINE"
   | _, _ => "BADLINE"
 
-def step (st : St) (line : String) : St × String :=
+/-! ### replay on the table model (`tdump` / `zdump` lines: node-for-node comparison with the real arena)
+A disagreement here means the *table model* no longer mirrors `table.rs`/`arena.rs` node for node (ids are
+deterministic: nodes are appended in creation order). It is not by itself a violation of C06/C07 — both
+properties are decided on the other lines — so these op names are owned by neither property. -/
+
+def setReg {α} (l : List (Nat × α)) (r : Nat) (x : α) : List (Nat × α) := (r, x) :: l.filter (·.1 ≠ r)
+
+def cacheBudget : Nat := 6000
+
+def TM.guard : TM → TM
+  | .arena s regs =>
+    if s.ucache.length + s.icache.length + s.dcache.length + s.ccache.length > cacheBudget then .off else .arena s regs
+  | x => x
+
+def fmtRef : Ref → String
+  | .E => "E" | .B => "B" | .N i => s!"N{i}"
+
+def sortRegs {α} (l : List (Nat × α)) : List (Nat × α) :=
+  (List.range 64).filterMap fun r => (l.lookup r).map fun x => (r, x)
+
+def fmtArena (s : Arena) (regs : List (Nat × Ref)) : String :=
+  let t := ",".intercalate (s.table.toList.map fun nd => s!"{nd.v}:{fmtRef nd.lo}:{fmtRef nd.hi}")
+  let r := ",".intercalate ((sortRegs regs).map fun (i, x) => s!"{i}={fmtRef x}")
+  s!"T[{t}] R[{r}]"
+
+def fmtZdds (regs : List (Nat × ZddS)) : String :=
+  let r := ",".intercalate ((sortRegs regs).map fun (i, z) => s!"{i}={fmtRef z.root}:{z.table.size}")
+  s!"R[{r}]"
+
+/-- `op_fam` of the harness: `acc = empty; for m { acc = union(acc, from_set(m)) }`, then `describe` (→ `count`) -/
+def tmFam (tm : TM) (d : Nat) (ms : List (List Nat)) : TM :=
+  match tm with
+  | .arena s regs =>
+    let res := ms.foldl (fun (acc : Option (Arena × Ref)) m => do
+      let (s, a) ← acc
+      let (s, r) := s.fromSet m
+      s.union a r) (some (s, .E))
+    match res with
+    | some (s, a) => match s.count a with
+      | some (s, _) => .arena s (setReg regs d a)
+      | none => .off
+    | none => .off
+  | .zdd regs =>
+    let res := ms.foldl (fun (acc : Option ZddS) m => do (← acc).union (ZddS.fromSet m)) (some ZddS.empty)
+    match res with
+    | some z => .zdd (setReg regs d z)
+    | none => .off
+  | .off => .off
+
+def tmArenaOp (tm : TM) (d : Nat) (f : Arena → List (Nat × Ref) → Option (Arena × Ref)) : TM :=
+  match tm with
+  | .arena s regs => match f s regs with
+    | some (s, r) => match s.count r with
+      | some (s, _) => .arena s (setReg regs d r)
+      | none => .off
+    | none => .off
+  | x => x
+
+def tmZddOp (tm : TM) (d : Nat) (f : List (Nat × ZddS) → Option ZddS) : TM :=
+  match tm with
+  | .zdd regs => match f regs with
+    | some z => .zdd (setReg regs d z)
+    | none => .off
+  | x => x
+
+def rget (regs : List (Nat × Ref)) (r : Nat) : Ref := (regs.lookup r).getD .E
+def zget (regs : List (Nat × ZddS)) (r : Nat) : ZddS := (regs.lookup r).getD ZddS.empty
+
+def tmBin (tm : TM) (op : String) (d a b : Nat) : TM :=
+  match tm with
+  | .arena _ _ => tmArenaOp tm d fun s regs => match op with
+    | "union" => s.union (rget regs a) (rget regs b)
+    | "inter" => s.inter (rget regs a) (rget regs b)
+    | "diff" => s.diff (rget regs a) (rget regs b)
+    | "pwo" => s.pwo (rget regs a) b
+    | _ => none
+  | .zdd _ => tmZddOp tm d fun regs => match op with
+    | "union" => (zget regs a).union (zget regs b)
+    | "inter" => (zget regs a).inter (zget regs b)
+    | "diff" => (zget regs a).diff (zget regs b)
+    | "product" => (zget regs a).product (zget regs b)
+    | "pwo" => (zget regs a).pwo b
+    | _ => none
+  | .off => .off
+
+def tmConst (tm : TM) (d : Nat) (kind : String) (v : Nat) : TM :=
+  match tm with
+  | .arena _ _ => tmArenaOp tm d fun s _ => match kind with
+    | "base" => some (s, .B) | "empty" => some (s, .E) | _ => some (s.singleton v)
+  | .zdd _ => tmZddOp tm d fun _ => match kind with
+    | "base" => some ZddS.base | "empty" => some ZddS.empty | _ => some (ZddS.singleton v)
+  | .off => .off
+
+/-- `gc(&hs)`: registers not kept are dropped, the kept ones get the returned handles; `describe` of each kept register -/
+def tmGc (tm : TM) (keep : List Nat) : TM :=
+  match tm with
+  | .arena s regs =>
+    match s.gc (keep.map (rget regs)) with
+    | some (s, roots) =>
+      let regs' := keep.zip roots
+      let s? := regs'.foldl (fun (acc : Option Arena) (_, r) => do let (s, _) ← (← acc).count r; pure s) (some s)
+      match s? with
+      | some s => .arena s regs'
+      | none => .off
+    | none => .off
+  | x => x
+
+def tmGcc : TM → TM
+  | .arena s regs => .arena s.gcCachesOnly regs
+  | x => x
+
+def tmDump (tm : TM) (impl : String) : String :=
+  match tm with
+  | .arena s regs => verdict (fmtArena s regs) impl
+  | .zdd regs => verdict (fmtZdds regs) impl
+  | .off => "SKIP"
+
+def stepTree (st : St) (line : String) : St × String :=
   let (op, impl?) := splitCase line
   let impl := impl?.getD ""
   match words op with
-  | ["new", "arena"] => ({ arena := true, regs := [] }, "")
-  | ["new", "zdd"] => ({ arena := false, regs := [] }, "")
+  | ["new", "arena"] => ({ arena := true, regs := [], tm := .arena {} [] }, "")
+  | ["new", "zdd"] => ({ arena := false, regs := [], tm := .zdd [] }, "")
   | "fam" :: d :: ms =>
     match d.toNat?, ms.mapM parseMember with
     | some d, some ms =>
@@ -162,6 +260,34 @@ def step (st : St) (line : String) : St × String :=
   | ["dump"] => (st, judgeDump st impl)
   | [] => (st, "")
   | _ => (st, "BADLINE")
+
+/-- the table-model replay runs next to the tree model; it answers only the `tdump`/`zdump` lines -/
+def stepTable (tm : TM) (line : String) : TM :=
+  let (op, _) := splitCase line
+  (match words op with
+  | "fam" :: d :: ms => match d.toNat?, ms.mapM parseMember with
+    | some d, some ms => tmFam tm d ms
+    | _, _ => .off
+  | ["base", d] => match d.toNat? with | some d => tmConst tm d "base" 0 | none => .off
+  | ["empty", d] => match d.toNat? with | some d => tmConst tm d "empty" 0 | none => .off
+  | ["single", d, v] => match d.toNat?, v.toNat? with | some d, some v => tmConst tm d "single" v | _, _ => .off
+  | "contains" :: _ => tm
+  | ["gcc"] => tmGcc tm
+  | "gc" :: keep => match natList keep with | some keep => tmGc tm keep | none => .off
+  | [bop, d, a, b] => match d.toNat?, a.toNat?, b.toNat? with
+    | some d, some a, some b => tmBin tm bop d a b
+    | _, _, _ => tm
+  | _ => tm).guard
+
+def step (st : St) (line : String) : St × String :=
+  let (op, impl?) := splitCase line
+  match words op with
+  | ["tdump"] => (st, tmDump st.tm (impl?.getD ""))
+  | ["zdump"] => (st, tmDump st.tm (impl?.getD ""))
+  | ("new" :: _) => stepTree st line
+  | _ =>
+    let (st', v) := stepTree st line
+    ({ st' with tm := stepTable st.tm line }, v)
 
 --! vmodel: zdd => Varpulis.Driver.ZddD.driver
 def driver : Prop' St := { init := {}, step := step }
